@@ -1024,7 +1024,37 @@ fn kind_units(rng: &mut Rng, kind: Kind, n: usize) -> Vec<Vec<u8>> {
     v
 }
 
+/// C14, implementation only (the model's first-seen numbering is quadratic, too slow for this size):
+/// more than 2^16 distinct tokens — the integer mapping must still be wide enough
+fn many_distinct_tokens(ctx: &mut Ctx) {
+    let n = 66_000usize;
+    let old: String = (0..n).map(|i| format!("{}\n", i)).collect();
+    let mut new_lines: Vec<String> = (0..n).map(|i| format!("{}\n", i)).collect();
+    new_lines[10] = "x\n".to_string();
+    new_lines.insert(40_000, "y\n".to_string());
+    new_lines.remove(65_990);
+    let new: String = new_lines.concat();
+    let req = format!("text lines str myers - - | <{} distinct lines> | <2 edits + 1 deletion> | - | -", n);
+    let r = catch_unwind(AssertUnwindSafe(|| {
+        let diff = TextDiff::configure().algorithm(Algorithm::Myers).diff_lines(&old[..], &new[..]);
+        let direct = similar::capture_diff_slices(Algorithm::Myers, diff.old_slices(), diff.new_slices());
+        (diff.ops().to_vec(), direct)
+    }));
+    ctx.count("text.many_distinct_tokens_cases");
+    match r {
+        Err(_) => ctx.violation("C14", &req, "text diff over more than 65536 distinct tokens panicked".to_string()),
+        Ok((ops, direct)) => {
+            if ops != direct {
+                ctx.violation("C14", &req, format!("ops differ from capture_diff_slices on the token slices ({} vs {} ops)", ops.len(), direct.len()));
+            }
+        }
+    }
+}
+
 pub fn suite_text(ctx: &mut Ctx) {
+    if ctx.take() {
+        many_distinct_tokens(ctx);
+    }
     const PIECES: [&str; 8] = ["a\n", "b\n", "a\r\n", "c\r", "a", " ", "é", "x y"];
     let (nrand, nbig) = match ctx.tier {
         Tier::Quick => (3000, 20),
@@ -1958,6 +1988,8 @@ struct RemapEval {
     new_toks: Vec<Vec<u8>>,
     /// per op: the remapped slices (None: iter_slices panicked on that op)
     slices: Option<Vec<Vec<Slice>>>,
+    /// the same through `TextDiffRemapper::new(old_slices, new_slices, old, new)`
+    slices_via_new: Option<Vec<Vec<Slice>>>,
 }
 
 fn locate(tag: ChangeTag, s: &[u8], old: &[u8], new: &[u8]) -> Slice {
@@ -1977,7 +2009,16 @@ fn remap_eval<T: DiffableStr + ?Sized>(kind: Kind, alg: Algorithm, old: &T, new:
             .collect::<Vec<_>>()
     }))
     .ok();
+    let slices_via_new = catch_unwind(AssertUnwindSafe(|| {
+        let remapper = TextDiffRemapper::new(diff.old_slices(), diff.new_slices(), old, new);
+        diff.ops()
+            .iter()
+            .map(|op| remapper.iter_slices(op).map(|(t, s)| locate(t, s.as_bytes(), old.as_bytes(), new.as_bytes())).collect::<Vec<Slice>>())
+            .collect::<Vec<_>>()
+    }))
+    .ok();
     Some(RemapEval {
+        slices_via_new,
         ops: diff.ops().to_vec(),
         old_toks: diff.old_slices().iter().map(|t| t.as_bytes().to_vec()).collect(),
         new_toks: diff.new_slices().iter().map(|t| t.as_bytes().to_vec()).collect(),
@@ -2125,6 +2166,9 @@ fn remap_case(ctx: &mut Ctx, kind: Kind, alg: Algorithm, mode: Mode, old: &[u8],
     ctx.count(&format!("remap.kind.{}.{}", kind.name(), mode.name()));
     if let Err(e) = check_remap(&ev, old, new) {
         ctx.violation("C17", &req, e);
+    }
+    if ev.slices_via_new != ev.slices {
+        ctx.violation("C17", &req, "TextDiffRemapper::new(old_slices, new_slices, old, new) remaps differently from from_text_diff".to_string());
     }
     let h = match mode {
         Mode::Str => check_helpers::<str>(kind, alg, as_str(old), as_str(new)),
@@ -2543,6 +2587,13 @@ fn determinism_case(ctx: &mut Ctx, c: &Case, workers: &Workers, fresh_threads: b
     let mut salted = c.clone();
     salted.salt = 0x5a17 + (c.old.len() as u32) * 31 + c.new.len() as u32;
     check(ctx, "a run with differently hashing items", run_capture(&salted).ops);
+    // lawful but colliding hashes: the ops may depend on equality only, never on hash values
+    let mut weak = c.clone();
+    weak.salt = obs::WEAK_HASH;
+    check(ctx, "a run with a heavily colliding hash (parity of the label)", run_capture(&weak).ops);
+    let mut konst = c.clone();
+    konst.salt = obs::CONST_HASH;
+    check(ctx, "a run with a constant hash", run_capture(&konst).ops);
     let mut relabelled = c.clone();
     relabelled.old = c.old.iter().map(|x| 7 * x + 3).collect();
     relabelled.new = c.new.iter().map(|x| 7 * x + 3).collect();
@@ -2765,7 +2816,7 @@ pub fn replay(line: &str) {
                 dops.iter().map(|op| rm.iter_slices(op).map(|(t, s)| locate(t, s, &old, &new)).collect::<Vec<Slice>>()).collect::<Vec<_>>()
             }))
             .ok();
-            let ev = RemapEval { ops: dops, old_toks: ot, new_toks: nt, slices };
+            let ev = RemapEval { ops: dops, old_toks: ot, new_toks: nt, slices_via_new: slices.clone(), slices };
             let ok_script = catch_unwind(AssertUnwindSafe(|| check_remap(&ev, &old, &new)));
             match ok_script {
                 Ok(Ok(())) => {}
